@@ -1,7 +1,8 @@
 """C28 — template flattening never lets content become markup.
 
 Tie: the real `flattenString` on generated `_stan` trees vs the Lean model of `_flattenElement`
-(bytes must be equal), and the Lean tokenizers vs real parsers on the real output: stdlib expat
+(bytes must be equal; for large content and scaled buffer sizes the chunk-level model `FlattenIO`
+with `bufferedWrite`), and the Lean tokenizers vs real parsers on the real output: stdlib expat
 for the XML reading, a Python transcription of the WHATWG tokenizer states for the HTML reading
 (html5lib is not installed).
 
@@ -28,13 +29,20 @@ from zope.interface import implementer
 
 warnings.filterwarnings("ignore", category=RuntimeWarning)
 
-HEADLINE = "TwistedProps.C28.html_roundtrip / xml_roundtrip_partial"
+HEADLINE = "TwistedProps.C28.html_roundtrip / xml_roundtrip_partial / buffering_invisible"
 RULE = ("random _stan trees (depth <= 5; Tag/transparent Tag/render-directive Tag, slot with and without default, "
         "Comment, CDATA, list/tuple/generator, fired/unfired Deferred, coroutine, IRenderable) whose strings (str and "
         "bytes; text, attribute values, slot values, comment and CDATA content) come from a hostile alphabet "
         "(< > & quotes -- --> --!> ]]> <!-- control characters, non-ASCII); plus, for one comment / CDATA / text / "
         "attribute, every string of length <= L over {- > ! < ] & \" a}; "
-        "distinct = (node kinds present, hostile sequences present, outcome)")
+        "plus LARGE content with the real BUFFER_SIZE (64 KiB): one string longer than k*BUFFER_SIZE (k = 1..3; text, attribute, "
+        "slot value, comment, CDATA; also inside an attribute value, behind an unfired Deferred, from a renderer, inside a random "
+        "tree) whose hostile cluster (]]> --> --!> & < \" multi-byte UTF-8 ...) begins at every offset around the multiple, in the "
+        "data and in the output, over benign and hostile padding; documents of small strings whose accumulated output crosses "
+        "BUFFER_SIZE in the middle of a hostile subtree; and the same class at small scale: _flatten.BUFFER_SIZE set to 1..64 "
+        "while the case runs (every string of length <= L for comment/CDATA with BUFFER_SIZE 2 and 3, random trees); "
+        "distinct = (node kinds present, hostile sequences present, outcome, buffer size in effect / a string longer than it / "
+        "accumulated output longer than it / a multi-byte hostile sequence straddling a multiple of it)")
 ASSUMES = [
     "tag and attribute names are valid for the reading in question (XML: [A-Za-z_:][-A-Za-z0-9_:.]*; HTML: first character an "
     "ASCII letter) and an element's attribute names are distinct (case-insensitively for HTML); the flattener does not validate names",
@@ -45,6 +53,10 @@ ASSUMES = [
     "XML reading: bytes are read as Latin-1 (any byte string is a character string); payloads are compared modulo XML line-end "
     "and attribute-value whitespace normalisation (#xD #xA, #xD -> #xA; TAB/LF/CR -> space in attribute values)",
     "bytes content is in the document encoding (the flattener passes bytes through unchanged)",
+    "cases with a 'bs' field run with the module constant twisted.web._flatten.BUFFER_SIZE set to that value (restored "
+    "afterwards); the cases without it use the real 2**16 and strings of real size",
+    "large cases (> 4096 content bytes) are model-compared on the flattened bytes only (Lean's tokenizers are the "
+    "proof-friendly quadratic ones); the oracle still parses them with expat and the Python WHATWG transcription",
 ]
 TRUSTED = ["stdlib pyexpat as the XML parser", "harness/corr/C28.py:html_tokens — hand transcription of the WHATWG tokenizer states "
            "(html5lib is not installed); html.unescape for character references"]
@@ -53,8 +65,13 @@ MANIFEST = {
             "tokenizer states incl. all comment-end forms): for every tree with valid names, tokenizing the flattened bytes yields "
             "exactly the tree's own markup with every string inside a text/attribute/comment payload — so no content can open, close "
             "or alter markup. HTML reading proved in full after the escapedComment repair; XML reading proved for documents without "
-            "'--' inside comments and without non-XML characters (both recorded findings). Model tied to _flatten.py and the "
-            "tokenizers tied to expat / a transcription of the WHATWG states by differential runs on hostile trees.",
+            "'--' inside comments and without non-XML characters (both recorded findings). No statement bounds the size of a "
+            "string or of the document; the chunk-level model (every write call, writeWithAttributeEscaping per chunk, "
+            "bufferedWrite/flushBuffer for ANY BUFFER_SIZE, flush before awaited Deferreds) is proved to deliver exactly the same "
+            "bytes (buffering_invisible, html_roundtrip_buffered); escaping slice by slice is proved safe for text/attribute "
+            "escaping and refuted for escapedCDATA/escapedComment (cdata_slices_counterexample). Model tied to _flatten.py and the "
+            "tokenizers tied to expat / a transcription of the WHATWG states by differential runs on hostile trees, including "
+            "strings longer than BUFFER_SIZE with hostile sequences straddling its multiples.",
     "note": "html5lib unavailable: the HTML half relies on hand transcriptions (Lean + Python) of the WHATWG tokenizer states; "
             "trusts Lean kernel, pyexpat, CPython bytes.replace / re.sub",
     "technique": "Lean 4 proof (state-machine simulation lemmas + induction over the tree) + differential tie + placeholder-substitution oracle",
@@ -72,13 +89,61 @@ def hx(b):
     return b.hex() if b else "-"
 
 
-def _content_bytes(h, kind):
-    return bytes.fromhex(h)
+# A content string of a case is hex, or (for large content) run-length segments joined by '+', each `hex` or
+# `hex*count` ("61*65534+5d5d3e" = 65534 times 'a' then ']]>').  The Lean driver reads the same notation.
+
+def _segs(h):
+    """encoded content -> [(bytes, count)]"""
+    out = []
+    for seg in h.split("+"):
+        if "*" in seg:
+            x, n = seg.split("*")
+            out.append((bytes.fromhex(x), int(n)))
+        elif seg:
+            out.append((bytes.fromhex(seg), 1))
+    return out
 
 
-def _content_obj(h, kind):
-    b = bytes.fromhex(h)
-    return b.decode("utf-8") if kind == "s" else b
+def _enc(segs):
+    """[(bytes, count)] -> encoded content"""
+    return "+".join(b.hex() if n == 1 else "%s*%d" % (b.hex(), n) for b, n in segs if b and n > 0)
+
+
+_CB = {}
+
+
+def cb(h):
+    """the bytes an encoded content string stands for"""
+    if "*" not in h and "+" not in h:
+        return bytes.fromhex(h)
+    r = _CB.get(h)
+    if r is None:
+        if len(_CB) > 64:
+            _CB.clear()
+        r = _CB[h] = b"".join(b * n for b, n in _segs(h))
+    return r
+
+
+def wire(h):
+    return h if h else "-"
+
+
+_RUN = re.compile(rb"(.)\1{15,}", re.S)
+
+
+def hxr(b):
+    """hex with every maximal run of >= 16 equal bytes written `xx*n` (segments joined by '+'); the driver's `hexR`"""
+    if not b:
+        return "-"
+    segs, pos = [], 0
+    for m in _RUN.finditer(b):
+        if m.start() > pos:
+            segs.append(b[pos:m.start()].hex())
+        segs.append("%02x*%d" % (b[m.start()], m.end() - m.start()))
+        pos = m.end()
+    if pos < len(b):
+        segs.append(b[pos:].hex())
+    return "+".join(segs)
 
 
 def _frame_line(fr):
@@ -86,7 +151,7 @@ def _frame_line(fr):
         return "N"
     if not fr:
         return "_"
-    return ",".join(hx(k.encode("ascii")) + "=" + hx(bytes.fromhex(v[0])) for k, v in fr.items())
+    return ",".join(hx(k.encode("ascii")) + "=" + wire(v[0]) for k, v in fr.items())
 
 
 def _name_bytes(name, kind):
@@ -96,7 +161,7 @@ def _name_bytes(name, kind):
 def node_line(n, out):
     k = n[0]
     if k in ("T", "C", "D"):
-        out += [k, hx(bytes.fromhex(n[1]))]
+        out += [k, wire(n[1])]
     elif k == "S":
         out += ["S", hx(n[1].encode("ascii"))]
     elif k == "SD":
@@ -128,8 +193,23 @@ def node_line(n, out):
         raise ValueError(k)
 
 
+BIG = 4096   # total content bytes above which a case is compared on the flattened bytes only (`flatb`): the Lean
+             # tokenizers are the proof-friendly quadratic ones (`cur ++ [c]`), the flattener model is linear
+
+
+def is_big(c):
+    return sum(len(x) for x in _strings(c["tree"], [])) > BIG
+
+
 def model_line(c):
-    out = ["flat"]
+    """small cases with the real BUFFER_SIZE: the chunk-free model `flatten` (+ the three tokenizations); cases with a
+    scaled BUFFER_SIZE and large cases: the chunk-level model (`FlattenIO`: every write call, the attribute wrappers,
+    bufferedWrite/flushBuffer with that BUFFER_SIZE) — the two are proved equal (`buffering_invisible`)"""
+    big = is_big(c)
+    if "bs" in c or big:
+        out = ["flatbw" if big else "flatw", str(c.get("bs", REAL_BUFFER_SIZE))]
+    else:
+        out = ["flat"]
     node_line(c["tree"], out)
     return " ".join(out)
 
@@ -164,7 +244,7 @@ class Builder:
         self.rn = 0
 
     def content(self, h, kind, place):
-        orig = bytes.fromhex(h)
+        orig = cb(h)
         i = self.n
         self.n += 1
         used = orig if self.sub is None else self.sub(i, orig, place)
@@ -262,12 +342,18 @@ class _Capture:
         return _write
 
 
-def flatten_real(tree, sub=None, capture=False):
-    """→ (bytes | None, wrapped exception class name | None, builder, [raw attribute values])"""
+REAL_BUFFER_SIZE = _flatten.BUFFER_SIZE
+
+
+def flatten_real(tree, sub=None, capture=False, bs=None):
+    """→ (bytes | None, wrapped exception class name | None, builder, [raw attribute values]).
+    `bs`: value of `_flatten.BUFFER_SIZE` while the case runs (None = the real one, untouched)."""
     b = Builder(sub)
     cap = _Capture() if capture else None
     if cap:
         _flatten.writeWithAttributeEscaping = cap
+    if bs is not None:
+        _flatten.BUFFER_SIZE = bs
     try:
         root = b.build(tree)
         res = []
@@ -283,6 +369,8 @@ def flatten_real(tree, sub=None, capture=False):
     finally:
         if cap:
             _flatten.writeWithAttributeEscaping = cap.real
+        if bs is not None:
+            _flatten.BUFFER_SIZE = REAL_BUFFER_SIZE
     if not res:
         return None, "NeverFired", b, []
     r = res[0]
@@ -472,9 +560,12 @@ def html_tokens(doc, foreign):
                 return toks
             if c == 0x3C:
                 state = "tagOpen"
-            else:
-                text.append(c)
-            i += 1
+                i += 1
+            else:                      # a run of characters none of which is '<' (same as one at a time)
+                j = doc.find(b"<", i)
+                j = n if j < 0 else j
+                text += doc[i:j]
+                i = j
         elif state == "tagOpen":
             if c is None:
                 return None
@@ -586,11 +677,15 @@ def html_tokens(doc, foreign):
         elif state in ("attrValueDQ", "attrValueSQ"):
             if c is None:
                 return None
-            i += 1
-            if c == (0x22 if state == "attrValueDQ" else 0x27):
+            q = 0x22 if state == "attrValueDQ" else 0x27
+            if c == q:
                 state = "afterAttrValueQ"
-            else:
-                av.append(c)
+                i += 1
+            else:                      # a run of characters none of which is the quote
+                j = doc.find(bytes([q]), i)
+                j = n if j < 0 else j
+                av += doc[i:j]
+                i = j
         elif state == "attrValueUQ":
             if c is None:
                 return None
@@ -630,12 +725,15 @@ def html_tokens(doc, foreign):
         elif state == "bogus":
             if c is None:
                 return None
-            i += 1
             if c == 0x3E:
                 emit_comment()
                 state = "data"
-            else:
-                cm.append(c)
+                i += 1
+            else:                      # a run of characters none of which is '>'
+                j = doc.find(b">", i)
+                j = n if j < 0 else j
+                cm += doc[i:j]
+                i = j
         elif state == "markupDecl":
             if doc.startswith(b"--", i):
                 cm = bytearray()
@@ -681,14 +779,18 @@ def html_tokens(doc, foreign):
         elif state == "comment":
             if c is None:
                 return None
-            i += 1
             if c == 0x3C:
                 cm.append(c)
                 state = "commentLt"
+                i += 1
             elif c == 0x2D:
                 state = "commentEndDash"
-            else:
-                cm.append(c)
+                i += 1
+            else:                      # a run of characters none of which is '<' or '-'
+                m = _COMMENT_SPECIAL.search(doc, i)
+                j = n if m is None else m.start()
+                cm += doc[i:j]
+                i = j
         elif state == "commentLt":
             if c == 0x21:
                 cm.append(c)
@@ -755,12 +857,14 @@ def html_tokens(doc, foreign):
         elif state == "cdata":
             if c is None:
                 return None
-            i += 1
             if c == 0x5D:
                 state = "cdataBracket"
-            else:
-                text.append(c)
-                _cdata_amp(text, c)
+                i += 1
+            else:                      # a run of characters none of which is ']'
+                j = doc.find(b"]", i)
+                j = n if j < 0 else j
+                text += doc[i:j].replace(b"&", b"&amp;")     # see _cdata_amp below
+                i = j
         elif state == "cdataBracket":
             if c == 0x5D:
                 state = "cdataEnd"
@@ -780,11 +884,11 @@ def html_tokens(doc, foreign):
                 state = "cdata"
 
 
-def _cdata_amp(text, c):
-    # CDATA section content is emitted as characters without character-reference processing; the text buffer is
-    # decoded as a whole when flushed, so protect a literal '&' coming from a CDATA section.
-    if c == 0x26:
-        text += b"amp;"
+_COMMENT_SPECIAL = re.compile(rb"[<-]")
+
+
+# _cdata_amp: CDATA section content is emitted as characters without character-reference processing; the text buffer
+# is decoded as a whole when flushed, so a literal '&' coming from a CDATA section is protected as '&amp;'.
 
 
 # ------------------------------------------------------------------------------------------
@@ -865,10 +969,12 @@ def kinds(n, acc):
 # implementation side of the tie
 
 def run_impl(c):
-    out, err, b, _ = flatten_real(c["tree"])
+    out, err, b, _ = flatten_real(c["tree"], bs=c.get("bs"))
     if out is None:
         return "!raised FlattenerError(%s)" % err
-    return "%s|x=%s|h=%s|n=%s" % (hx(out), show_tokens(xml_tokens(out)), show_tokens(html_tokens(out, True)),
+    if is_big(c):
+        return hxr(out)
+    return "%s|x=%s|h=%s|n=%s" % (hxr(out), show_tokens(xml_tokens(out)), show_tokens(html_tokens(out, True)),
                                     show_tokens(html_tokens(out, False)))
 
 
@@ -950,22 +1056,55 @@ def _has_forbidden(contents):
     return any(any(ch < 32 and ch not in (9, 10, 13) for ch in used) for _, _, used in contents)
 
 
+def _abbr(b, limit=200):
+    """a document for a message: runs of >= 16 equal bytes written  'x'*n"""
+    parts, pos = [], 0
+    for m in _RUN.finditer(b):
+        if m.start() > pos:
+            parts.append(repr(b[pos:m.start()]))
+        parts.append("%r*%d" % (b[m.start():m.start() + 1], m.end() - m.start()))
+        pos = m.end()
+        if sum(map(len, parts)) > limit:
+            break
+    else:
+        if pos < len(b) or not parts:
+            parts.append(repr(b[pos:]))
+    r = " + ".join(parts)
+    return r if len(r) <= limit + 60 else r[:limit + 60] + "..."
+
+
+def _show(toks, limit=260):
+    """tokens for a message (payloads in run-length hex)"""
+    if toks is None:
+        return "!"
+    out = []
+    for t in toks:
+        if t[0] in ("t", "c"):
+            out.append(t[0] + ":" + hxr(t[1]))
+        elif t[0] == "s":
+            out.append("s:" + hx(t[1]) + ":" + ",".join(hx(k) + "=" + (hxr(v) if v is not None else "?") for k, v in t[2]) + ":" + ("1" if t[3] else "0"))
+        else:
+            out.append("e:" + hx(t[1]))
+    r = ";".join(out)
+    return r if len(r) <= limit else r[:limit] + "..."
+
+
 def _check_reading(label, parse, tree, out_b, out_t, bt, cap_b, cap_t, xml):
     """→ None or detail string"""
     tb, tt = parse(out_b), parse(out_t)
     if tb is None:
-        return "benign document %r does not parse" % out_b[:120]
+        return "benign document %s does not parse" % _abbr(out_b, 120)
     if tt is None:
-        return "document %r does not parse" % out_t[:160]
+        return "document %s does not parse" % _abbr(out_t)
     if _shape(tb) != _shape(tt):
-        return "markup changed: %r parses as %s, with inert content as %s" % (out_t[:160], show_tokens(tt)[:200], show_tokens(tb)[:200])
+        return "markup changed: %s parses as %s, with inert content as %s" % (_abbr(out_t), _show(tt), _show(tb))
     # placeholders-only attribute values must be exactly the content
     for rb_, rt_ in zip(cap_b, cap_t):
         if _PH.sub(b"", rb_) == b"" and _subst(rb_, bt.contents) != rt_:
-            return "attribute value of strings %r written as %r" % (_subst(rb_, bt.contents), rt_)
+            return "attribute value of strings %s written as %s" % (_abbr(_subst(rb_, bt.contents)), _abbr(rt_))
     exp = _expected(tb, bt.contents, cap_t, xml)
     if exp != tt:
-        return "payload changed: %r parses as %s expected %s" % (out_t[:160], show_tokens(tt)[:200], show_tokens(exp)[:200])
+        return "payload changed: %s parses as %s expected %s" % (_abbr(out_t), _show(tt), _show(exp))
     return None
 
 
@@ -985,47 +1124,48 @@ def oracle(c, impl_out):
     vx, vh = names_valid(tree)
     if not (vx or vh):
         return None
-    out_b, err_b, bb, cap_b = flatten_real(tree, sub=lambda i, orig, place: _ph(i), capture=True)
-    out_t, err_t, bt, cap_t = flatten_real(tree, capture=True)
+    bs = c.get("bs")
+    out_b, err_b, bb, cap_b = flatten_real(tree, sub=lambda i, orig, place: _ph(i), capture=True, bs=bs)
+    out_t, err_t, bt, cap_t = flatten_real(tree, capture=True, bs=bs)
     if out_b is None or out_t is None:
         if err_b != err_t:
             return {"key": "content-raises", "detail": "with inert content: %s, as generated: %s" % (err_b, err_t)}
         return None
-    if not impl_out.startswith(hx(out_t) + "|"):
+    if impl_out.split("|")[0] != hxr(out_t):
         return {"key": "nondeterministic", "detail": "two runs of flattenString differ"}
 
     if vh:
         d = _check_reading("html", lambda doc: html_tokens(doc, True), tree, out_b, out_t, bt, cap_b, cap_t, False)
         if d:
-            key = "html-comment" if b"<!--" in out_t and "C" in kinds(tree, set()) and _comment_cause(tree, True) else "html"
+            key = "html-comment" if b"<!--" in out_t and "C" in kinds(tree, set()) and _comment_cause(tree, True, bs) else "html"
             return {"key": key, "detail": d}
         if "D" in kinds(tree, set()):
             tb, tt = html_tokens(out_b, False), html_tokens(out_t, False)
             if tb is None or tt is None or _shape(tb) != _shape(tt):
                 return {"key": "html-cdata-outside-foreign-content",
-                        "detail": "CDATA in HTML content is a bogus comment ended by the first '>': %r parses as %s"
-                                  % (out_t[:160], show_tokens(tt)[:200])}
+                        "detail": "CDATA in HTML content is a bogus comment ended by the first '>': %s parses as %s"
+                                  % (_abbr(out_t), _show(tt))}
     if vx:
         d = _check_reading("xml", xml_tokens, tree, out_b, out_t, bt, cap_b, cap_t, True)
         if d:
             # which class of content is responsible?  neutralise one class at a time and look again
             if _has_forbidden(bt.contents):
-                o2, e2, b2, c2 = flatten_real(tree, sub=_neutral(forbidden=True), capture=True)
+                o2, e2, b2, c2 = flatten_real(tree, sub=_neutral(forbidden=True), capture=True, bs=bs)
                 if o2 is not None and not _check_reading("xml", xml_tokens, tree, out_b, o2, b2, cap_b, c2, True):
                     return {"key": "xml-forbidden-char", "detail": d}
-            o3, e3, b3, c3 = flatten_real(tree, sub=_neutral(forbidden=True, dashes=True), capture=True)
+            o3, e3, b3, c3 = flatten_real(tree, sub=_neutral(forbidden=True, dashes=True), capture=True, bs=bs)
             if o3 is not None and not _check_reading("xml", xml_tokens, tree, out_b, o3, b3, cap_b, c3, True):
                 return {"key": "xml-comment-double-dash", "detail": d}
             return {"key": "xml", "detail": d}
     return None
 
 
-def _comment_cause(tree, html):
+def _comment_cause(tree, html, bs=None):
     """is a comment's content responsible? (neutralise comment punctuation and look again)"""
     def sub(i, orig, place):
         return orig.replace(b"-", b"~").replace(b">", b"~").replace(b"!", b"~") if place == "comment" else orig
-    out_b, err_b, bb, cap_b = flatten_real(tree, sub=lambda i, orig, place: _ph(i), capture=True)
-    o2, e2, b2, c2 = flatten_real(tree, sub=sub, capture=True)
+    out_b, err_b, bb, cap_b = flatten_real(tree, sub=lambda i, orig, place: _ph(i), capture=True, bs=bs)
+    o2, e2, b2, c2 = flatten_real(tree, sub=sub, capture=True, bs=bs)
     if o2 is None or out_b is None:
         return False
     return _check_reading("html", lambda doc: html_tokens(doc, True), tree, out_b, o2, b2, cap_b, c2, False) is None
@@ -1125,8 +1265,11 @@ def _tree(rng, bad):
     return t
 
 
-def _single(place, b):
-    h = b.hex()
+def _single(place, b, kind="b"):
+    """one content string (bytes, or an encoded content string) in one place of a fixed small document"""
+    h = b.hex() if isinstance(b, bytes) else b
+    if kind != "b":
+        return _rekind(_single(place, h), kind)
     if place == "comment":
         return ["G", "div", "s", None, [], [["T", "78", "s"], ["C", h, "b"], ["T", "79", "s"]], "list"]
     if place == "cdata":
@@ -1139,7 +1282,174 @@ def _single(place, b):
         return ["G", "p", "s", {"s": [h, "b", "plain"]}, [["id", "s", ["S", "s"]]], [["S", "s"]], "list"]
     if place == "attr-tag":
         return ["G", "img", "s", None, [["src", "s", ["G", "a", "s", None, [["href", "s", ["T", h, "b"]]], [["C", h, "b"]], "list"]]], [], "list"]
+    if place == "attr-cdata":        # a CDATA node inside an attribute value: its writes go through the attribute escaper
+        return ["G", "a", "s", None, [["title", "s", ["D", h, "b"]]], [["T", "79", "s"]], "list"]
+    if place == "attr-comment":
+        return ["G", "a", "s", None, [["title", "s", ["C", h, "b"]]], [["T", "79", "s"]], "list"]
+    if place == "later-cdata":       # behind an unfired Deferred: the buffer is flushed before and after
+        return ["G", "svg", "s", None, [], [["T", "78", "s"], ["F", "later", ["D", h, "b"]], ["T", "79", "s"]], "list"]
+    if place == "later-comment":
+        return ["G", "div", "s", None, [], [["T", "78", "s"], ["F", "later", ["C", h, "b"]], ["T", "79", "s"]], "list"]
+    if place == "render-text":
+        return ["E", ["G", "p", "s", None, [], [["R", None, ["T", h, "b"]]], "list"]]
+    if place == "slot-later":        # slot value is a fired Deferred, used in an attribute and as a child
+        return ["G", "p", "s", {"s": [h, "b", "deferred"]}, [["id", "s", ["S", "s"]]], [["S", "s"]], "list"]
     raise ValueError(place)
+
+
+def _rekind(n, kind):
+    """the same tree with every content string of kind `kind` ("s" = str, "b" = bytes)"""
+    if isinstance(n, list):
+        if n and n[0] in ("T", "C", "D") and len(n) == 3:
+            return [n[0], n[1], kind]
+        return [_rekind(x, kind) for x in n]
+    if isinstance(n, dict):
+        return {k: [v[0], kind, v[2]] for k, v in n.items()}
+    return n
+
+
+# ---- large content: strings longer than the flattener's buffer (BUFFER_SIZE, 64 KiB), hostile sequences placed at /
+# straddling the multiples of it, documents whose accumulated output crosses it in the middle of a hostile subtree ----
+
+BS = REAL_BUFFER_SIZE
+PLACES_OF = {"D": "cdata", "C": "comment", "T": "text"}
+CLUSTERS = {
+    "cdata": ["]]>", "]]>", "]]>]]>", "]]]>", "]]]]>", "]]><script>alert(1)</script><![CDATA[", "]]><b>", "]>", "]]", "]]>>",
+              "]]&gt;", "&", "<", "é"],
+    "comment": ["-->", "-->", "--!>", "--", "->", ">", "-", "--><script>alert(1)</script><!--", "--!><b>", "<!--", "--->",
+                "<!-->", "é"],
+    "text": ["<", ">", "&", "&amp;", "<script>", "</p>", "]]>", "é", "€", "\U0001F600", "&lt;", "\r\n", '"'],
+    "attr": ['"', '"><script>', '" x="', "&", "<", ">", "&quot;", "é", "€", "'", "\t\n", "-->"],
+}
+PAD_UNITS = [b"a"] * 10 + [b"]", b"-", b"&", b">", b"<", b'"', b" ", "é".encode(), "€".encode(), b"ab", b"]]>", b"-->", b"\n"]
+
+
+def _big_content(rng, place, k=None, cluster=None, back=None, unit=None, shift=0, tail=None, second=None):
+    """an encoded content string longer than k*BS whose hostile `cluster` begins `back` bytes before offset k*BS
+    (minus `shift`, the number of bytes written before the content)"""
+    k = rng.choice([1, 1, 1, 1, 1, 2, 2, 3]) if k is None else k
+    if cluster is None:
+        cluster = rng.choice(CLUSTERS[place]) if rng.random() < 0.75 else "".join(rng.choice(HOSTILE) for _ in range(rng.randint(1, 4)))
+    cl = cluster.encode("utf-8") if isinstance(cluster, str) else cluster
+    if back is None:
+        back = rng.randint(0, len(cl)) if rng.random() < 0.7 else rng.randint(-3, len(cl) + 24)
+    unit = rng.choice(PAD_UNITS) if unit is None else unit
+    start = max(0, k * BS - back - shift)
+    segs = [(unit, start // len(unit)), (b"a", start % len(unit)), (cl, 1)]
+    if second is None:
+        second = rng.random() < 0.2
+    if second:          # the same again at the next multiple
+        pos = start + len(cl)
+        cl2 = rng.choice(CLUSTERS[place]).encode("utf-8")
+        start2 = max(pos, (k + 1) * BS - rng.randint(0, len(cl2)) - shift)
+        segs += [(b"b", start2 - pos), (cl2, 1)]
+    if tail is None:
+        tail = rng.choice([0, 0, 0, 1, 1, 2, 2, 100, 100, 100, BS - 7, BS + 10])
+    segs.append((b"c", tail))
+    return _enc(segs)
+
+
+def _contents_of(n, acc, attr=False):
+    """(container list, index, place) of every content string of a case tree"""
+    k = n[0]
+    if k in ("T", "C", "D"):
+        acc.append((n, 1, "attr" if (attr and k == "T") else PLACES_OF[k]))
+    elif k == "G":
+        for v in (n[3] or {}).values():
+            acc.append((v, 0, "text"))
+        for an, ak, av in n[4]:
+            _contents_of(av, acc, True)
+        for c in n[5]:
+            _contents_of(c, acc, attr)
+    elif k == "SD":
+        _contents_of(n[2], acc, attr)
+    elif k == "R":
+        for v in (n[1] or {}).values():
+            acc.append((v, 0, "text"))
+        _contents_of(n[2], acc, attr)
+    elif k == "L":
+        for c in n[2]:
+            _contents_of(c, acc, attr)
+    elif k == "F":
+        _contents_of(n[2], acc, attr)
+    elif k == "E":
+        _contents_of(n[1], acc, attr)
+    return acc
+
+
+def _tree_with_big(rng):
+    """a random tree one (sometimes two) of whose content strings is large"""
+    for _ in range(50):
+        t = _tree(rng, bad=False)
+        cs = _contents_of(t, [])
+        if cs:
+            break
+    else:
+        return _single("cdata", _big_content(rng, "cdata"))
+    for holder, i, place in rng.sample(cs, min(len(cs), rng.choice([1, 1, 1, 2]))):
+        holder[i] = _big_content(rng, place, shift=rng.choice([0, 0, 0, rng.randint(0, 40)]))
+    return t
+
+
+def _accumulated(rng):
+    """a document of small hostile strings whose accumulated output crosses BUFFER_SIZE in the middle of them:
+    padding of just under k*BS bytes, then a random subtree (so `bufferedWrite` flushes between two of its writes)"""
+    k = rng.choice([1, 1, 2])
+    r = rng.randint(0, 90)
+    pad = ["T", _enc([(b"a", k * BS - r)]), rng.choice(["s", "b"])]
+    sub = _tree(rng, bad=False)
+    if rng.random() < 0.5:
+        return ["L", rng.choice(["list", "tuple", "gen"]), [pad, sub]]
+    return ["G", rng.choice(["div", "svg", ""]), "s", {k_: [_string(rng)[0], "s", "plain"] for k_ in SLOTS}, [], [pad, sub], "list"]
+
+
+BIG_SINGLE_PLACES = ["cdata", "cdata", "cdata", "comment", "comment", "text", "attr", "slot", "attr-tag", "attr-cdata",
+                     "attr-comment", "later-cdata", "later-comment", "render-text", "slot-later"]
+_CLUSTER_PLACE = {"cdata": "cdata", "comment": "comment", "text": "text", "attr": "attr", "slot": "attr", "attr-tag": "comment",
+                  "attr-cdata": "cdata", "attr-comment": "comment", "later-cdata": "cdata", "later-comment": "comment",
+                  "render-text": "text", "slot-later": "attr"}
+# bytes the fixed document of `_single` writes before the content starts
+_SHIFT = {"cdata": 5 + 9, "comment": 5 + 1 + 4, "text": 3, "attr": 9, "later-cdata": 5 + 1 + 9, "later-comment": 5 + 1 + 4}
+
+
+def _boundary_cases(clusters, ks):
+    """deterministic: every alignment of each cluster against k*BS, in the data and in the output"""
+    for place, cluster in clusters:
+        n = len(cluster.encode("utf-8"))
+        for k in ks:
+            for back in range(-1, n + 2):
+                for shift in (0, _SHIFT[place]):
+                    yield {"tree": _single(place, _big_content(None, place, k=k, cluster=cluster + "<b>x</b>", back=back,
+                                                               unit=b"a", shift=shift, tail=100, second=False),
+                                           "s" if (back + k) % 2 else "b")}
+
+
+def _big_cases(rng, n_single, n_tree, n_acc):
+    for i in range(n_single):
+        place = rng.choice(BIG_SINGLE_PLACES)
+        h = _big_content(rng, _CLUSTER_PLACE[place], shift=rng.choice([0, 0, _SHIFT.get(place, 0)]))
+        yield {"tree": _single(place, h, rng.choice(["s", "b"]))}
+    for i in range(n_tree):
+        yield {"tree": _tree_with_big(rng)}
+    for i in range(n_acc):
+        yield {"tree": _accumulated(rng)}
+
+
+def _scaled_cases(rng, L, n_tree):
+    """the same class at small scale: `_flatten.BUFFER_SIZE` set to 1..16 while the case runs, so every string longer
+    than that is "large" and every alignment of a hostile sequence against a multiple occurs in short strings"""
+    for bs in (2, 3):
+        for place in ("cdata", "comment"):
+            for s in _all_strings(L):
+                if len(s) >= 2:
+                    yield {"tree": _single(place, s), "bs": bs}
+    for bs in (1, 2):
+        for place in ("text", "attr", "slot", "attr-tag", "attr-cdata", "later-cdata"):
+            for s in _all_strings(2):
+                if s:
+                    yield {"tree": _single(place, s), "bs": bs}
+    for i in range(n_tree):
+        yield {"tree": _tree(rng, bad=False), "bs": rng.choice([1, 2, 3, 4, 5, 8, 13, 16, 64])}
 
 
 SMALL = [b"-", b">", b"!", b"<", b"]", b"&", b'"', b"a"]
@@ -1169,6 +1479,18 @@ def corpus():
     cs.append({"tree": ["S", "s"]})
     cs.append({"tree": ["G", "\xff", "b", None, [], [], "list"]})
     cs.append({"tree": ["G", "br", "b", None, [["a b", "s", ["T", "61", "s"]]], [], "list"]})
+    # large content (seeded change C28-2 was missed without it): ']]>' / '-->' at every alignment against BUFFER_SIZE
+    cs += list(_boundary_cases([("cdata", "]]>"), ("comment", "-->")], (1, 2)))
+    # the witnesses of seeded/C28-2/demo.py: ']]><script>…' beginning 2 / 1 bytes before 64 KiB and 128 KiB
+    for k in (1, 2):
+        for back in (2, 1):
+            cs.append({"tree": ["G", "div", "s", None, [], [["D", _big_content(
+                None, "cdata", k=k, cluster="]]><script>alert(1)</script><![CDATA[", back=back, unit=b"a", tail=100, second=False), "s"]],
+                "list"]})
+    for place, s in [("cdata", b"]]>"), ("cdata", b"a]]>b"), ("comment", b"-->"), ("comment", b"a--!>b"), ("attr-cdata", b'"]]>'),
+                     ("later-cdata", b"]]>")]:
+        for bs in (1, 2, 3):
+            cs.append({"tree": _single(place, s), "bs": bs})
     return cs
 
 
@@ -1183,6 +1505,15 @@ def generate(rng, tier):
     n = 1500 if tier == "quick" else 30000
     for i in range(n):
         yield {"tree": _tree(rng, bad=(i % 6 == 0))}
+    # large content / buffer boundaries (real BUFFER_SIZE), then the same class at small scale
+    if tier == "quick":
+        yield from _boundary_cases([("cdata", "]]]>"), ("comment", "--!>"), ("text", "&"), ("attr", '"')], (1,))
+        yield from _big_cases(rng, 110, 60, 60)
+        yield from _scaled_cases(rng, 3, 600)
+    else:
+        yield from _boundary_cases([(p, c) for p in ("cdata", "comment", "text", "attr") for c in CLUSTERS[p][1:6]], (1, 2))
+        yield from _big_cases(rng, 500, 300, 300)
+        yield from _scaled_cases(rng, 4, 12000)
 
 
 def search(rng, tier, disagreeing):
@@ -1191,15 +1522,18 @@ def search(rng, tier, disagreeing):
             yield {"tree": _single(place, s)}
     for i in range(4000):
         yield {"tree": _tree(rng, bad=False)}
+    yield from _boundary_cases([(p, c) for p in ("cdata", "comment", "text", "attr") for c in CLUSTERS[p][1:3]], (1,))
+    yield from _big_cases(rng, 60, 30, 30)
+    yield from _scaled_cases(rng, 3, 1500)
 
 
 def _strings(n, acc):
     k = n[0]
     if k in ("T", "C", "D"):
-        acc.append(bytes.fromhex(n[1]))
+        acc.append(cb(n[1]))
     elif k == "G":
         for v in (n[3] or {}).values():
-            acc.append(bytes.fromhex(v[0]))
+            acc.append(cb(v[0]))
         for an, ak, av in n[4]:
             _strings(av, acc)
         for c in n[5]:
@@ -1208,7 +1542,7 @@ def _strings(n, acc):
         _strings(n[2], acc)
     elif k == "R":
         for v in (n[1] or {}).values():
-            acc.append(bytes.fromhex(v[0]))
+            acc.append(cb(v[0]))
         _strings(n[2], acc)
     elif k == "L":
         for c in n[2]:
@@ -1227,16 +1561,55 @@ def tag(c, out):
                                       ("c", b"\x01")) if pat in allb)
     vx, vh = names_valid(c["tree"])
     res = "raise" if out.startswith("!") else "ok"
-    return f"{ks}|{feats}|{int(vx)}{int(vh)}|{res}"
+    # size class: which buffer size is in effect, is some string longer than it, does a hostile multi-byte sequence
+    # straddle a multiple of it
+    bs = c.get("bs") or BS
+    strs = _strings(c["tree"], [])
+    size = ("r" if "bs" not in c else "b%d" % bs) + ("L" if any(len(x) > bs for x in strs) else "") + \
+        ("A" if sum(len(x) for x in strs) > bs else "") + ("X" if any(_straddles(x, bs) for x in strs) else "")
+    return f"{ks}|{feats}|{int(vx)}{int(vh)}|{res}|{size}"
+
+
+_MULTI = (b"]]>", b"-->", b"--!>", b"<!--", b"--", b"->", b"&amp;", b"&lt;", b"&gt;", b"\r\n")
+
+
+def _straddles(x, bs):
+    """does one of the multi-byte hostile sequences lie across a multiple of `bs` in x"""
+    for m in range(bs, len(x), bs):
+        w = x[max(0, m - 3):m + 3]
+        off = m - max(0, m - 3)
+        for seq in _MULTI:
+            j = w.find(seq)
+            while j >= 0:
+                if j < off < j + len(seq):
+                    return True
+                j = w.find(seq, j + 1)
+        if m // bs > 64:
+            break
+    return False
 
 
 def shrink(c):
     t = c["tree"]
+    extra = {k: v for k, v in c.items() if k != "tree"}
 
     def variants(n):
         k = n[0]
         if k in ("T", "C", "D"):
-            b = bytes.fromhex(n[1])
+            segs = _segs(n[1])
+            if len(segs) > 1 or any(cnt > 1 for _, cnt in segs) or sum(len(b) * cnt for b, cnt in segs) > 64:
+                # large content: shrink segment-wise (drop / halve / decrement a run, delete bytes of a literal)
+                for i, (b, cnt) in enumerate(segs):
+                    yield [k, _enc(segs[:i] + segs[i + 1:]), n[2]]
+                    if cnt > 1:
+                        for c2 in (cnt // 2, cnt - BS, cnt - 1):
+                            if 0 < c2 < cnt:
+                                yield [k, _enc(segs[:i] + [(b, c2)] + segs[i + 1:]), n[2]]
+                    elif len(b) <= 64:
+                        for j in range(len(b)):
+                            yield [k, _enc(segs[:i] + [(b[:j] + b[j + 1:], 1)] + segs[i + 1:]), n[2]]
+                return
+            b = cb(n[1])
             for i in range(len(b)):
                 yield [k, (b[:i] + b[i + 1:]).hex(), n[2]]
         elif k == "G":
@@ -1269,4 +1642,4 @@ def shrink(c):
                 for v in variants(n[2][i]):
                     yield [n[0], n[1], n[2][:i] + [v] + n[2][i + 1:]]
     for v in variants(t):
-        yield {"tree": v}
+        yield dict(extra, tree=v)
